@@ -8,8 +8,12 @@
 //	lookup s3       => <hex> | none
 //	owner <hex>     => s3 | none
 //	stats           => <allocated> <total>
+//	util            => <kind> <allocated> <total>   the third Stats() result: zero | ratio (= allocated/total) |
+//	                   percent (= 100*allocated/total) | nan | other
 //	epoch           => <current epoch>
 //	roundtrip       => ok | error      (MarshalJSON, UnmarshalJSON into a zero allocator)
+//	stress <seed>   => ok | viol <monitor> <detail>   8 goroutines allocate/renew/release/look up/advance concurrently on a
+//	                   FRESH allocator of the same geometry; afterwards uniqueness, range and count are audited
 package main
 
 import (
@@ -21,6 +25,7 @@ import (
 	"net"
 	"strconv"
 	"strings"
+	"sync"
 
 	"bngverif/hx"
 
@@ -73,7 +78,7 @@ var bases = []struct {
 	{"172.16.255.0", 24, 32}, // 256 slots
 }
 
-var graces = []int{1, 1, 1, 0, 2, 2, 3, 5}
+var graces = []int{1, 1, 1, 0, 2, 2, 3, 5, 1, 2, 256, 257, 258, 259}
 
 func (g geo) randAddr(r *rand.Rand) string {
 	n := g.total()
@@ -103,8 +108,10 @@ func (g geo) randOp(r *rand.Rand, subs int) string {
 		return "lookup " + s
 	case x < 83:
 		return "owner " + g.randAddr(r)
-	case x < 92:
+	case x < 90:
 		return "stats"
+	case x < 93:
+		return "util"
 	case x < 95:
 		return "epoch"
 	default:
@@ -113,7 +120,7 @@ func (g geo) randOp(r *rand.Rand, subs int) string {
 }
 
 func tail(subs int) []string {
-	out := []string{"stats"}
+	out := []string{"stats", "util"}
 	for s := 1; s <= subs; s++ {
 		out = append(out, fmt.Sprintf("lookup s%d", s))
 	}
@@ -164,6 +171,11 @@ func (comp) Gen(r *rand.Rand, tier string, emit func([]string)) {
 			emit(seq)
 		}
 	}
+	// concurrent callers (the interleaving is the scheduler's; the audit afterwards is deterministic)
+	for i := 0; i < 12; i++ {
+		g := geo{32, []string{"10.0.0.0", "192.168.7.0"}[i%2], 28, 32, 1 + i%2}
+		emit([]string{g.newOp(), fmt.Sprintf("stress %d", r.Intn(1<<30)), "stats"})
+	}
 	// an IPv6 base network (the allocator's address arithmetic is IPv4 only)
 	emit([]string{"new 128 20010db8000000000000000000000000 120 128 1", "alloc s1", "lookup s1", "stats"})
 	if tier == "thorough" {
@@ -195,6 +207,7 @@ func exhaustive(emit func([]string)) {
 type run struct {
 	a   *allocator.EpochBitmapAllocator
 	fam int
+	cfg allocator.EpochBitmapConfig
 }
 
 func (comp) NewRun() hx.Run { return &run{} }
@@ -246,11 +259,12 @@ func (r *run) Do(op string) string {
 			return "badop"
 		}
 		r.fam = fam
-		a, err := allocator.NewEpochBitmapAllocator(allocator.EpochBitmapConfig{
+		r.cfg = allocator.EpochBitmapConfig{
 			BaseNetwork:  fmt.Sprintf("%s/%d", ipOf(base, fam).String(), ones),
 			PrefixLength: pl,
 			GracePeriod:  grace,
-		})
+		}
+		a, err := allocator.NewEpochBitmapAllocator(r.cfg)
 		if err != nil {
 			return "invalid"
 		}
@@ -292,8 +306,14 @@ func (r *run) Do(op string) string {
 	case "stats":
 		al, tot, _ := r.a.Stats()
 		return fmt.Sprintf("%d %d", al, tot)
+	case "util":
+		al, tot, u := r.a.Stats()
+		return fmt.Sprintf("%s %d %d", hx.UtilKind(al, tot, u), al, tot)
 	case "epoch":
 		return strconv.FormatUint(r.a.GetCurrentEpoch(), 10)
+	case "stress":
+		seed, _ := strconv.ParseInt(f[1], 10, 64)
+		return r.stress(seed)
 	case "roundtrip":
 		data, err := json.Marshal(r.a)
 		if err != nil {
@@ -307,6 +327,76 @@ func (r *run) Do(op string) string {
 		return "ok"
 	}
 	return "badop"
+}
+
+// stress: concurrent callers on a fresh allocator, then a sequential audit of the C01/C05 clauses
+func (r *run) stress(seed int64) string {
+	// the races are rare: many short rounds
+	for round := int64(0); round < 30; round++ {
+		if v := r.stressOnce(seed + round*7919); v != "ok" {
+			return v
+		}
+	}
+	return "ok"
+}
+
+func (r *run) stressOnce(seed int64) string {
+	a, err := allocator.NewEpochBitmapAllocator(r.cfg)
+	if err != nil {
+		return "ok"
+	}
+	ctx := context.Background()
+	const workers, steps, subs = 8, 300, 12
+	var wg sync.WaitGroup
+	for w := 0; w < workers; w++ {
+		wg.Add(1)
+		go func(w int) {
+			defer wg.Done()
+			rr := rand.New(rand.NewSource(seed*131 + int64(w)))
+			for i := 0; i < steps; i++ {
+				sub := fmt.Sprintf("s%d", 1+rr.Intn(subs))
+				switch rr.Intn(10) {
+				case 0, 1, 2, 3:
+					a.Allocate(ctx, sub)
+				case 4:
+					a.Renew(ctx, sub)
+				case 5, 6:
+					a.Release(ctx, sub)
+				case 7:
+					a.Lookup(sub)
+				case 8:
+					a.Stats()
+				default:
+					if w == 0 && rr.Intn(4) == 0 {
+						a.AdvanceEpoch()
+					}
+				}
+			}
+		}(w)
+	}
+	wg.Wait()
+	seen := map[string]string{}
+	held := uint64(0)
+	for i := 1; i <= subs; i++ {
+		sub := fmt.Sprintf("s%d", i)
+		ip := a.Lookup(sub)
+		if ip == nil {
+			continue
+		}
+		held++
+		k := showIP(ip)
+		if o, dup := seen[k]; dup {
+			return fmt.Sprintf("viol unique %s answered to %s and %s after concurrent callers", k, o, sub)
+		}
+		seen[k] = sub
+		if a.LookupByIP(ip) != sub {
+			return fmt.Sprintf("viol agree reverse lookup of %s is not %s after concurrent callers", k, sub)
+		}
+	}
+	if al, _, _ := a.Stats(); al != held {
+		return fmt.Sprintf("viol count reported allocated=%d, holders=%d after concurrent callers", al, held)
+	}
+	return "ok"
 }
 
 func main() { hx.Main(comp{}) }
